@@ -73,6 +73,16 @@ def check(ctx):
             scu = make_supercell(base_cells()[cname], (1, 1, 1), unimodular=U)
             scu["positions"] = scu["positions"] % 1.0
             described.append(scu)
+    # slightly distorted crystals (one atom moved by 3e-4 length units: far above the symmetry tolerance 1e-5, far below
+    # anything one would call a different structure): the admissible space is the one of the distorted, less symmetric crystal
+    for cname in (("hcp", "bcc_conv") if ctx.quick else ("hcp", "bcc_conv", "ortho_C", "nacl_prim", "tet_bc")):
+        scd = make_supercell(base_cells()[cname], (1, 1, 1))
+        scd = dict(scd)
+        pos_ = np.array(scd["positions"], float)
+        pos_[-1] += np.linalg.solve(np.asarray(scd["lattice"], float).T, np.array([3e-4, 1.7e-4, -2.3e-4]))
+        scd["positions"] = pos_
+        scd["name"] = scd["name"] + "-distorted3e-4"
+        described.append(scd)
     for sc in described:
         N = len(sc["numbers"])
         at = atoms_of(sc)
